@@ -397,6 +397,9 @@ func (w *world) exec(script []string, r *gen.Rand) {
 		switch f[0] {
 		case "unlock":
 			pass, b, c := w.unlockPass(bit(1)), bit(2), bit(3)
+			if w.sp != nil && w.pend != nil {
+				continue // one waiting caller per held call: the order of two would not be determined
+			}
 			if w.sp != nil {
 				out.Op(line, w.startPending(line, func() string { return w.doUnlock(pass, b, c) }))
 				if w.pend != nil {
@@ -448,6 +451,9 @@ func (w *world) exec(script []string, r *gen.Rand) {
 				w.predUnlocked("scripted")
 			}
 		case "guarded":
+			if w.sp != nil && w.pend != nil {
+				continue
+			}
 			if w.sp != nil {
 				addr := w.addrs[0]
 				key := w.keys[addr]
@@ -541,9 +547,25 @@ func (w *world) exec(script []string, r *gen.Rand) {
 				out.Op(line, "at:"+target+" "+w.readFlag())
 				continue
 			}
+			if target == "ret" && w.pend != nil {
+				// a caller is waiting for wallet.mtx and runs as soon as the call returns: the flag at the return
+				// itself cannot be observed
+				armFor(w.e, "ret")
+				w.e.resume <- struct{}{}
+				_, ret := w.waitSp()
+				out.Op("spto retp", "ret:"+ret+" -")
+				w.drainPending()
+				continue
+			}
+			hadPend := w.pend != nil
 			armFor(w.e, target)
 			w.e.resume <- struct{}{}
 			at, ret := w.waitSp()
+			if at == "" && hadPend {
+				out.Op("spto retp", "ret:"+ret+" -")
+				w.drainPending()
+				continue
+			}
 			flag := w.readFlag()
 			if at != "" {
 				out.Op(line, "at:"+at+" "+flag)
@@ -563,10 +585,15 @@ func (w *world) exec(script []string, r *gen.Rand) {
 	}
 	// never leave a call held
 	for w.sp != nil {
+		hadPend := w.pend != nil
 		armFor(w.e, "ret")
 		w.e.resume <- struct{}{}
 		_, ret := w.waitSp()
-		out.Op("spto ret", "ret:"+ret+" "+w.readFlag())
+		if hadPend {
+			out.Op("spto retp", "ret:"+ret+" -")
+		} else {
+			out.Op("spto ret", "ret:"+ret+" "+w.readFlag())
+		}
 		w.drainPending()
 	}
 }
@@ -926,12 +953,14 @@ func soup(w *world, r *gen.Rand, workers int, dur time.Duration, withSp bool, ta
 			continue
 		}
 		nBad++
+		// password changes overlapping the observation; it is blamed on a change with a wrong old password only if
+		// no overlapping change presented the right one (calls also overlap while they wait for wallet.mtx)
 		overl := false
-		wrongOld := false
+		wrongOld := true
 		for _, s := range sps {
 			if s.inv < o.resp && o.inv < s.resp {
 				overl = true
-				wrongOld = wrongOld || s.wrongOld
+				wrongOld = wrongOld && s.wrongOld
 			}
 		}
 		switch {
